@@ -114,7 +114,24 @@ def analyse(ctx, case, run, S):
         for mi in range(3):
             a, b = masks_of(mi, 'RecoverAndVerify'), masks_of(mi, 'RecoverOnly')
             if a['result'] == 'ok' and b['result'] == 'ok':
-                ctx.expect(a['masks'] == b['masks'], 'C10:recover-only-differs', '%s: RecoverOnly and RecoverAndVerify masks differ (view %d)' % (case['name'], mi), cfg, 'mask_wrong')
+                ma, mb = a['masks'], b['masks']
+                shape = len(ma) == len(mb) and all((x is None) == (y is None) and (x is None or len(x) == len(y)) for x, y in zip(ma, mb))
+                if not ctx.expect(shape, 'C10:recover-only-differs', '%s: RecoverOnly and RecoverAndVerify return masks of different shape (view %d)' % (case['name'], mi), cfg, 'mask_wrong'):
+                    continue
+                for x, y in zip(ma, mb):
+                    for kk, (hx, hy) in enumerate(zip(x or [], y or [])):
+                        if hx == hy:
+                            continue
+                        # different terms: equal as functions?  (a concrete disagreement at the shadow point settles it; otherwise the solver decides)
+                        if not ctx.expect(run.core['shadows'][hx] == run.core['shadows'][hy], 'C10:recover-only-differs',
+                                          '%s: RecoverOnly and RecoverAndVerify masks differ (view %d, component %d)' % (case['name'], mi, kk), cfg, 'recover_only_differs'):
+                            continue
+                        num = (run.norm.frac(hx) - run.norm.frac(hy)).num
+                        S.sync_terms(run.T)
+                        if run.T.cval(num) == 0:
+                            continue
+                        ctx.solve(S, 'valid-eq', '%s: RecoverOnly mask[%d] == RecoverAndVerify mask[%d] (view %d)' % (case['name'], kk, kk, mi), side + ['(not (= t%d 0.0))' % num],
+                                  cfg=cfg, key='C10:recover-only-differs', pred='recover_only_differs')
 
 
 def run(ctx):
